@@ -1,5 +1,5 @@
 #!/bin/sh
 # usage: tools/save_mutant.sh <ID> <N> : copy a confirmed mutant into /verif/seeded/<ID>-m<N>/
-ID=$1; N=$2; M=/tmp/mut/$ID-out/mutant$N; D=/verif/seeded/$ID-m$N
+ID=$1; N=$2; M=${MUT_BASE:-/tmp/mut}/$ID-out/mutant$N; D=/verif/seeded/$ID-m${3:-$N}
 mkdir -p $D && cp $M/patch.diff $M/demo.sh $D/ && python3 /verif/tools/save_meta.py "$M" "$D" "$ID" "$N"
 echo saved $D
